@@ -15,6 +15,7 @@ import (
 	"pgregory.net/rapid"
 
 	"verif/internal/harness"
+	"verif/internal/keys"
 	"verif/internal/pki"
 	"verif/internal/preref"
 	"verif/internal/rfc6962"
@@ -37,6 +38,7 @@ type UtilCase struct {
 	LogID     []byte
 	Muts      []Mut  // "field" (version, timestamp, ext, logid) or blob mutations
 	Shape     string // "" | "leaf-only" (issuers withheld) | "empty-chain" | "nil-sct"
+	Prior     string // "" | "good-first" | "alt-first": two calls on the same leaf, the issuer's key swapped in one
 }
 
 func genUtil(t *rapid.T) UtilCase {
@@ -62,6 +64,9 @@ func genUtil(t *rapid.T) UtilCase {
 	}
 	if x := pick(t, "shape", 24); x < 3 {
 		c.Shape = []string{"leaf-only", "empty-chain", "nil-sct"}[x]
+	}
+	if c.Shape == "" && (c.Spec.Precert || c.Embedded) && pick(t, "prior", 4) == 0 {
+		c.Prior = pickStr(t, "priorkind", []string{"good-first", "alt-first"})
 	}
 	if pick(t, "bulk", 15) == 0 { // entries beyond the 16-bit length boundary
 		c.Spec.Bulk = []int{65000, 65535, 65536, 70000, 200000}[pick(t, "bulksize", 5)]
@@ -154,7 +159,7 @@ func checkUtil(t *testing.T, c UtilCase) (v harness.Verdict) {
 		}
 	}
 	v.Class(fmt.Sprintf("muts:%d", len(c.Muts)), hashClass(o.p.hash), sigClass(o.p.sig))
-	v.NonTrivial = len(c.Muts) > 0 || c.SignSpec != nil || route != "x509" || c.Shape != ""
+	v.NonTrivial = len(c.Muts) > 0 || c.SignSpec != nil || route != "x509" || c.Shape != "" || c.Prior != ""
 
 	// the chain that is presented and the entry an independent client derives from it
 	ders := b.Full
@@ -207,54 +212,102 @@ func checkUtil(t *testing.T, c UtilCase) (v harness.Verdict) {
 		v.Discard = true
 		return v
 	}
-	// signature-level expectation (what a verifier holding the key must answer) ...
-	var sigWant *refErr
-	switch {
-	case c.Shape == "leaf-only" && entry.Type == rfc6962.PrecertEntry:
-		chain = chain[:1]
-		sigWant = refuse("unsignable", "a precert entry cannot be derived without the issuer certificate")
-	case c.Shape == "leaf-only":
-		chain = chain[:1]
-	case c.Shape == "empty-chain":
-		chain = nil
-		sigWant = refuse("unsignable", "no certificate")
-	}
-	if sigWant == nil {
-		input, ierr := rfc6962.SCTSignatureInput(uint8(o.version), o.ts, entry, o.ext)
-		if ierr != nil {
-			sigWant = refuse("unsignable", "%v", ierr)
-		} else {
-			o.p.msg = input
-			sigWant = refVerify(o.p.pub, o.p.hash, o.p.sig, input, o.p.val)
-		}
-	}
-	// ... and what VerifySCT must answer on top of it
+	// expect computes, for the entry a chain stands for, the signature-level expectation (what a verifier
+	// holding the key must answer) and what VerifySCT must answer on top of it.
+	preWant := want // "not-embedded", when the certificate carries another SCT
 	policyOK, class := refPolicy(o.p.pub, c.OptIn)
-	switch {
-	case !policyOK:
-		want = refuse("policy", "no verifier may be built for a %s key (opt-in %v)", class, c.OptIn)
-	case c.Shape == "nil-sct":
-		want = refuse("unsignable", "no SCT")
-	case want == nil:
-		want = sigWant
+	expect := func(e rfc6962.Entry) (sigWant, want *refErr) {
+		switch {
+		case c.Shape == "leaf-only" && e.Type == rfc6962.PrecertEntry:
+			sigWant = refuse("unsignable", "a precert entry cannot be derived without the issuer certificate")
+		case c.Shape == "empty-chain":
+			sigWant = refuse("unsignable", "no certificate")
+		}
+		if sigWant == nil {
+			input, ierr := rfc6962.SCTSignatureInput(uint8(o.version), o.ts, e, o.ext)
+			if ierr != nil {
+				sigWant = refuse("unsignable", "%v", ierr)
+			} else {
+				o.p.msg = input
+				sigWant = refVerify(o.p.pub, o.p.hash, o.p.sig, input, o.p.val)
+			}
+		}
+		switch {
+		case !policyOK:
+			want = refuse("policy", "no verifier may be built for a %s key (opt-in %v)", class, c.OptIn)
+		case c.Shape == "nil-sct":
+			want = refuse("unsignable", "no SCT")
+		case preWant != nil:
+			want = preWant
+		default:
+			want = sigWant
+		}
+		return sigWant, want
+	}
+	switch c.Shape {
+	case "leaf-only":
+		chain = chain[:1]
+	case "empty-chain":
+		chain = nil
 	}
 	v.Class("shape:" + c.Shape)
 
 	sct := &ct.SignedCertificateTimestamp{SCTVersion: ct.Version(o.version), LogID: ct.LogID{KeyID: o.logID}, Timestamp: o.ts, Extensions: o.ext,
 		Signature: ct.DigitallySigned{Algorithm: tls.SignatureAndHashAlgorithm{Hash: tls.HashAlgorithm(o.p.hash), Signature: tls.SignatureAlgorithm(o.p.sig)}, Signature: o.p.val}}
-	var got error
 	var pan any
-	func() {
-		defer func() { pan = recover() }()
-		if c.Shape == "nil-sct" {
-			got = ctutil.VerifySCT(o.p.pub, chain, nil, c.Embedded)
-			return
+	call := func(ch []*x509.Certificate, e rfc6962.Entry, where string) (sigWant *refErr) {
+		sigWant, want := expect(e)
+		var got error
+		func() {
+			defer func() { pan = recover() }()
+			if c.Shape == "nil-sct" {
+				got = ctutil.VerifySCT(o.p.pub, ch, nil, c.Embedded)
+				return
+			}
+			got = ctutil.VerifySCT(o.p.pub, ch, sct, c.Embedded)
+		}()
+		judge(&v, where, got, pan, want, &o.p)
+		if want == nil && len(c.Muts) > 0 {
+			v.Class("accept-after-mutation")
 		}
-		got = ctutil.VerifySCT(o.p.pub, chain, sct, c.Embedded)
-	}()
-	judge(&v, "ctutil.VerifySCT("+route+")", got, pan, want, &o.p)
-	if want == nil && len(c.Muts) > 0 {
-		v.Class("accept-after-mutation")
+		return sigWant
+	}
+
+	// Two calls in one process on the same leaf: once under its issuer, once under a certificate of the
+	// same name holding another key (the issuer key hash is part of a precert entry, so the verdicts
+	// differ); the order is drawn. Whatever the first call left behind must not leak into the second.
+	issuerIdx := 1
+	if b.PreIssuer != nil && !c.Embedded {
+		issuerIdx = 2
+	}
+	var sigWant *refErr
+	if c.Prior != "" && c.Shape == "" && entry.Type == rfc6962.PrecertEntry && issuerIdx < len(chain) {
+		altKey := keys.Pick("p256", 13)
+		if altKey == b.Issuer.Key {
+			altKey = keys.Pick("p256", 14)
+		}
+		t2 := b.Issuer.Tmpl
+		t2.Key = altKey
+		altParsed, perr := parseChain([][]byte{pki.Issue(b.Issuer.Parent, t2, "alt-issuer").DER})
+		if perr != nil {
+			v.Discard = true
+			return v
+		}
+		altChain := append([]*x509.Certificate(nil), chain...)
+		altChain[issuerIdx] = altParsed[0]
+		altEntry := entry
+		altEntry.IssuerKeyHash = sha256.Sum256(altKey.SPKI)
+		v.Class("sequence:" + c.Prior)
+		if c.Prior == "good-first" {
+			call(chain, entry, "ctutil.VerifySCT("+route+", first call, true issuer)")
+			chain, entry = altChain, altEntry
+			sigWant = call(chain, entry, "ctutil.VerifySCT("+route+", second call, same-name issuer with another key)")
+		} else {
+			call(altChain, altEntry, "ctutil.VerifySCT("+route+", first call, same-name issuer with another key)")
+			sigWant = call(chain, entry, "ctutil.VerifySCT("+route+", second call, true issuer)")
+		}
+	} else {
+		sigWant = call(chain, entry, "ctutil.VerifySCT("+route+")")
 	}
 
 	// The same SCT through a ctutil.LogInfo built from the key's SubjectPublicKeyInfo (no network is
@@ -282,6 +335,7 @@ func checkUtil(t *testing.T, c UtilCase) (v harness.Verdict) {
 			} else {
 				leaf.TimestampedEntry.X509Entry = &cert
 			}
+			var got error
 			func() {
 				defer func() { pan = recover() }()
 				got = li.VerifySCTSignature(*sct, leaf)
